@@ -82,7 +82,7 @@ static void run_case(const sscn *s, long idx) {
     size_t bos = s->bos ? bytes : BOS_UNKNOWN;
     errno_t rc = -999;
     probes_reset();
-    g_shm->in_call = 1; FENCED(rc = _qsort_s_chk(n ? arr : arr, n, z, cmp_sort, g_ctx, bos)); g_shm->in_call = 0;
+    g_shm->in_call = 1; g_cur_fn = "qsort_s"; FENCED(rc = _qsort_s_chk(n ? arr : arr, n, z, cmp_sort, g_ctx, bos)); g_shm->in_call = 0;
     K[K_SORTS]++; K[K_CMP] += g_cmp_calls;
     char obs[200];
     {   char b[120]; snprintf(b, sizeof b, "q;%s;%s;p%d;b%d;pl%d;%s", ncls(n), zcls(z), s->pattern, s->bos, s->place, g_fence.faulted ? "fault" : errname(rc)); distinct_add(hash_str(b) ^ (n <= 9 ? mix64(n * 977 + z) : 0)); }
@@ -112,7 +112,7 @@ static void run_case(const sscn *s, long idx) {
         g_keyobj = keybuf; g_bad_ptr = g_bad_ctx = g_bad_align = 0; g_cmp_calls = 0;
         void *r = (void *)-1;
         memcpy(a1, arr, bytes);
-        g_shm->in_call = 1; FENCED(r = _bsearch_s_chk(keybuf, arr, n, z, cmp_search, g_ctx, bos)); g_shm->in_call = 0;
+        g_shm->in_call = 1; g_cur_fn = "bsearch_s"; FENCED(r = _bsearch_s_chk(keybuf, arr, n, z, cmp_search, g_ctx, bos)); g_shm->in_call = 0;
         K[K_SEARCHES]++; K[K_CMP] += g_cmp_calls;
         if (g_fence.faulted) { K[K_FAULTS]++; snprintf(obs, sizeof obs, "%s fault at offset %ld from the array start", g_fence.is_write ? "WRITE" : "READ", (long)(g_fence.addr - (uintptr_t)arr)); viol(s, idx, "bsearch_s", "access-outside-array", obs); return; }
         int present = 0; for (size_t i = 0; i < n; i++) if (keyof(arr + i * z) == kv) { present = 1; break; }
@@ -159,7 +159,7 @@ static void gen(void) {
         g_shm->cur = my; run_case(&s, my);
     }
 }
-static void body(void *a, long lo, long hi) { (void)a; (void)hi; g_skip_below = lo; gen(); for (int i = 0; i < K_NUM; i++) __sync_fetch_and_add(&CTR(i), K[i]); distinct_emit(); }
+static void body(void *a, long lo, long hi) { (void)a; (void)hi; g_skip_below = lo; gen(); for (int i = 0; i < K_NUM; i++) __sync_fetch_and_add(&CTR(i), K[i]); __sync_fetch_and_add(&CTR(60), g_fp_checks); distinct_emit(); }
 static void on_death(void *a, long idx, int status, int hung) {
     (void)a; char key[200], what[300], w[300];
     CTR(K_DEATH)++;
@@ -181,10 +181,11 @@ int main(int argc, char **argv) {
         else if (!strcmp(argv[i], "--verbose")) g_verbose = 1;
         else { fprintf(stderr, "unknown arg %s\n", argv[i]); return 2; }
     }
-    arena_init(); fence_init(); shm_init(); probes_install();
+    arena_init(); fence_init(); shm_init(); probes_install(); fp_init();
     int dummy = 0;
     run_supervised(body, on_death, &dummy, 0, 1L << 40, 30);
     for (int i = 0; i < K_NUM; i++) emit_counter(KN[i], CTR(i));
+    emit_counter("footprint_checks", CTR(60));
     fprintf(g_out, "{\"t\":\"end\"}\n"); fflush(g_out);
     return 0;
 }
